@@ -85,6 +85,7 @@ impl<F: Field, const D: usize> PreprocessedColumns<F, D> {
 }
 
 /// the duplicate flag is kept per (table, slot): the prover-side conversion cannot tell the creating row from a later writing row of the SAME table
+pub uninterp spec fn every_read_hint_output_has_a_creator<F>(ops: Seq<Op<F>>) -> bool;
 pub uninterp spec fn first_writer_of_the_slot_is_a_row_of_another_table(op: NpoTypeId, wid: int) -> bool;
 // ---------------------------------------------------------------- ghost accounting
 pub type Cnt = spec_fn(u32) -> int;
@@ -247,6 +248,9 @@ def build():
               'ret matches Ok(p) ==> forall|k: int| 0 <= k < self.ops@.len() ==> (cp_out(#[trigger] self.ops@[k]) matches Some(w) ==> !p.hint_output_wids@.contains(w))')
     # C10 (open finding): a private input no ALU row uses is accepted by build() and by the runner and refused here, so the circuit cannot be proven
     g.ensures('H_a_built_circuit_is_never_refused_for_a_private_input_no_alu_row_uses', 'ret matches Err(e) ==> !(e is UnclaimedPrivateInput)')
+    # C10 (open finding, round 17): a hint output that only non-primitive rows read (e.g. hinted coefficients hashed by Poseidon2) gets no creator: the NPO arm counts the reads, the creator role is only ever
+    # taken by an ALU row or by the table that outputs the slot -- the builder accepts the program and the honest proof fails the WitnessChecks lookup
+    g.ensures('H_a_hint_output_read_only_by_non_primitive_rows_has_a_creator', 'ret is Ok ==> every_read_hint_output_has_a_creator(self.ops@)')
     g.ensures('ext_reads_cover_all_witnesses', 'ret matches Ok(p) ==> p.ext_reads@.len() >= self.witness_count')
 
     g.after('let hint_output_wids = clone_u32_set(&preprocessed.hint_output_wids);', '''
